@@ -12,7 +12,7 @@ from collections import Counter
 
 import numpy as np
 
-from ..core import choice, draw_cfg
+from ..core import choice, draw_cfg, maybe_long
 from ..oracles import DOCUMENTED_MESSAGES
 from ..problems import FAMILIES, build_problem, draw_problem_spec
 from ..world import Act, Store, pgnorm
@@ -32,7 +32,7 @@ LEVEL_NOTE = (
 TECHNIQUE = "deterministic simulation: stop-cause injection (budgets, callback stop, target) x restart histories, truth-of-report oracle"
 DESIGN_REF = "DESIGN.md 4.2"
 BUDGET = {
-    "quick": {"plans": 10000, "wall": 90, "chunk": 8},
+    "quick": {"plans": 6000, "wall": 90, "chunk": 8},
     "thorough": {"plans": 60000, "wall": 900, "chunk": 16},
 }
 RULE = (
@@ -56,6 +56,7 @@ def gen(rng, tier, index):
     jac_modes = ["callable"] * 7 + ["2-point", "3-point", None]
     cfg = draw_cfg(rng, jac_modes=jac_modes, allow_scaler=True)
     cfg["maxiter"] = int(rng.integers(3, 16))
+    maybe_long(rng, spec, cfg)
     plan = {
         "problem": spec,
         "cfg": cfg,
